@@ -551,8 +551,14 @@ func (p *Printer) rightParen(pos Pos) {
 // that startsWithLparen adds to the matching opening parenthesis.
 func (p *Printer) closingParen(stmts []*Stmt, last []Comment, openPos, closePos Pos) {
 	p.wantSpace = spaceNotRequired
-	if len(last) == 0 && len(stmts) == 1 && endsWithRparen(stmts[0]) &&
-		(p.singleLine || openPos.Line() == closePos.Line()) {
+	// The two parentheses share a line exactly when rightParen is not going
+	// to print a newline first. Decide on that, not on where the parentheses
+	// were in the source, so that printing the output again agrees.
+	sameLine := !p.wantsNewline(closePos, false)
+	if p.minify && len(p.pendingHdocs) == 0 {
+		sameLine = true
+	}
+	if len(last) == 0 && len(stmts) == 1 && endsWithRparen(stmts[0]) && sameLine {
 		p.wantSpace = spaceRequired
 	}
 	p.spacePad(closePos)
